@@ -410,7 +410,7 @@ func (im *Impl) Exec(line string) (out string) {
 		}
 		return im.rbKillQ(off, n, tag)
 	case "clone":
-		return im.clone(w[1], len(w) > 2 && w[2] == "late")
+		return im.clone(w[1], len(w) > 2 && w[2] == "late", len(w) > 2 && w[2] == "fault")
 	case "maxchain":
 		types.MaxChainLength = atoi(w[1])
 		return "ok"
